@@ -114,6 +114,7 @@ type UpReq struct {
 	Sends     []time.Duration
 	Answered  bool // a matching response has been delivered to the UPF
 	AnsTried  bool
+	ErrSends  int  // copies whose socket write was made to fail
 	MidAns    bool // an answer was injected mid-turn; processed by the end of this step
 	abCounted bool
 	SMF       int
